@@ -1,5 +1,6 @@
 """Generic driver for decision-table properties: TLC model check -> TLC case export -> real code ->
 TLC monitor -> reproduce deviations -> classify."""
+import json
 import engine as E
 
 
@@ -66,10 +67,23 @@ def run_table(prop, tier, seed, work, module, mc_cfgs, gen_module, gen_cfg, trac
         e2.update(confirm_env or {})
         evs2, devs2 = execute(rows, "confirm", e2)
         again = {d["line"]: d for d in devs2}
+        # a harness may answer one row with several events (the same row in a second deployment): deviations of the re-run
+        # are also found by the row they belong to
+        def canon(c):
+            return json.dumps({k: v for k, v in c.items() if k != "xvar"}, sort_keys=True)
+        bycase = {}
+        for d in devs2:
+            cs = canon(evs2[d["line"] - 1].get("case", {}))
+            if cs in bycase:
+                bycase[cs] = dict(bycase[cs], guards=sorted(set(bycase[cs]["guards"]) | set(d["guards"])))
+            else:
+                bycase[cs] = d
         for k, d in enumerate(mine):
             ev = evs[d["line"] - 1]
             guards = [g for g in d["guards"] if is_mine(g)]
             d2 = again.get(k + 1)
+            if not d2 or not set(guards) & set(d2["guards"]):
+                d2 = bycase.get(canon(rows[k]))
             if not d2 or not set(guards) & set(d2["guards"]):
                 res.notes.append("deviation at row %d (%s) did not reproduce; ignored" % (d["line"], guards))
                 continue
